@@ -55,8 +55,11 @@ def main():
             print(f'{name}: PATCH DOES NOT APPLY: {r.stderr.strip()[:200]}')
             continue
         fired, errs, details = [], [], []
-        for pid in ([target] if target_only else props):
-            rr = sh('/venv/bin/python', os.path.join(ROOT, 'check.py'), pid, '--repo', SCRATCH, '--no-evidence')
+        from concurrent.futures import ThreadPoolExecutor
+        plist = [target] if target_only else props
+        with ThreadPoolExecutor(max_workers=14) as ex:
+            results = list(ex.map(lambda pid: sh('/venv/bin/python', os.path.join(ROOT, 'check.py'), pid, '--repo', SCRATCH, '--no-evidence'), plist))
+        for pid, rr in zip(plist, results):
             if rr.returncode == 1:
                 fired.append(pid)
             elif rr.returncode == 2:
